@@ -256,7 +256,14 @@ def main(argv=None):
         "wall_s": round(time.time() - t0, 2),
         "violations": len([l for l in out_lines if l.startswith("VIOLATION")]),
     }
-    write_evidence(prop, ev)
+    if args.no_lean:
+        # development run: never overwrite the evidence of a full run
+        d = os.path.join(VERIF, "out", "evidence-dev")
+        os.makedirs(d, exist_ok=True)
+        with open(os.path.join(d, prop + ".json"), "w") as f:
+            json.dump(ev, f, indent=1, ensure_ascii=False, default=str)
+    else:
+        write_evidence(prop, ev)
     for l in out_lines:
         print(l)
     print("%s %s seed=%d: %d theorems (%d discharged), %d cases, %d distinct non-trivial, %d model ops compared, %.1fs -> exit %d" % (
